@@ -145,6 +145,16 @@ CHECKS = {
                 "cross-checked with the C01/C02 comparator. Exploration only.",
         "note": "Scenario content restricted to what both formats carry; date stamp normalised.",
     },
+    "C18": {
+        "technique": "property-based testing: generated scenarios x sequences of read-only operations; invariant = deep "
+                     "structural snapshot (incl. attribute-name sets and id-table types) identical before and after "
+                     "every operation, exports before/after byte-identical modulo date",
+        "text": "1350 sequences per quick run over 16 kinds of read-only operation (queries, lookups, goal checks, ==, "
+                "hash, copy, deepcopy, pickle, str, XML/protobuf writers, draw+render) on scenarios enriched with the "
+                "structures that make side effects visible. Exploration only.",
+        "note": "Snapshot goes through public accessors; an exception of a read-only operation is not counted as a "
+                "mutation.",
+    },
 }
 
 NOT_APPLICABLE = [{"property_id": p, "reason": "check not built yet (work in progress; will be claimed once its "
